@@ -30,17 +30,22 @@ open Goat Goat.MemFSConc
 
 /-! ## common parsing / printing -/
 
-def parsePath (s : String) : Path :=
-  if s = "." || s = "-" || s = "" then [] else (s.splitOn "/").filter (· ≠ "")
+/-- node names travel as text on the wire and are byte strings in the model -/
+def nameOfString (s : String) : Name := s.toUTF8.toList
 
-def showPath (p : Path) : String := if p.isEmpty then "." else "/".intercalate p
+def showName (n : Name) : String := String.fromUTF8! ⟨n.toArray⟩
+
+def parsePath (s : String) : Path :=
+  if s = "." || s = "-" || s = "" then [] else ((s.splitOn "/").filter (· ≠ "")).map nameOfString
+
+def showPath (p : Path) : String := if p.isEmpty then "." else "/".intercalate (p.map showName)
 
 def showRes : Res → String
   | .ok => "ok"
   | .err => "err"
   | .bool b => if b then "t" else "f"
   | .data v => s!"data {Hex.encode v}"
-  | .list l => "list " ++ ",".intercalate (l.map fun (n, d) => n ++ (if d then ":d" else ":f"))
+  | .list l => "list " ++ ",".intercalate (l.map fun (n, d) => showName n ++ (if d then ":d" else ":f"))
 
 def parseOp (ws : List String) : Option Op :=
   match ws with
